@@ -444,7 +444,7 @@ func TestVerifC18(t *testing.T) {
 			scens = append(scens, scen{c18Case{InFlight: 2, Frames: 2, Size: sz, Tail: sz / 2, Timers: 0}, 1})
 		}
 	}
-	r.SetDeadline(map[bool]time.Duration{false: 150 * time.Second, true: 35 * time.Minute}[r.Thorough()])
+	r.SetDeadline(map[bool]time.Duration{false: 20 * time.Minute, true: 35 * time.Minute}[r.Thorough()])
 	per := map[string]interface{}{}
 	completed := 0
 	firstScenario := true
